@@ -81,7 +81,7 @@ def run(tier):
         chain, _ = gen.enumerate_blocks(gen.rule_vocab(gen.C3), gen.RULE_SHAPES_CHAIN, 3)
         blocks = basic + ctx + const_blocks(V13)
         wc = [("WordsCheck1.cfg", "8-bit"), ("WordsCheck2.cfg", "16-bit")]
-        pairs = chain + gen.shared_use_blocks(600, seed)    # chains of up to three operators, values with two uses: rules on only, validated where a rule fired
+        pairs = chain + gen.shared_use_blocks(250, seed)    # chains of up to three operators, values with two uses: rules on only, validated where a rule fired
     hand = corpus.hand_blocks() + [p for _, _, p in cat]
     cmds = [{"cmd": "sfs", "text": t} for t in hand + blocks]
     # (M) the oracle is checked before it is believed
